@@ -80,6 +80,21 @@ def record(seed, nalign):
             i = rnd.randint(-n, n - 1)
             ev("Index", text, [i], lambda: str(al[i]))
             ev("Rc", text, [], lambda: str(al.rc()))
+            ev("Unchanged", text, [], lambda: str(al))  # the calls above were queries
+            # a history on ONE derived object: the reverse complement is sliced repeatedly and must
+            # keep reading the same after every call
+            try:
+                rcd = al.rc()
+                rtext = str(rcd)
+            except Exception:
+                rcd = None
+            if rcd is not None and set(rtext) <= set(CODE):
+                for _ in range(4):
+                    a, b = rnd.randint(-n, n), rnd.randint(-n, n)
+                    ev("Slice", rtext, [a, b], lambda: str(rcd[a:b]))
+                    ev("Unchanged", rtext, [], lambda: str(rcd))
+                ev("Rc", rtext, [], lambda: str(rcd.rc()))
+                ev("Unchanged", text, [], lambda: str(al))
             # slice of a slice / rc of a slice: the map of a derived object
             a, b = sorted((rnd.randint(0, n), rnd.randint(0, n)))
             if b - a >= 2:
@@ -92,6 +107,7 @@ def record(seed, nalign):
                 if part is not None and set(ptext) <= set(CODE):
                     ev("Slice", ptext, [c, d], lambda: str(part[c:d]))
                     ev("Rc", ptext, [], lambda: str(part.rc()))
+                    ev("Unchanged", ptext, [], lambda: str(part))
             # feature-map indexing: 1..3 ordered segments in alignment coordinates
             segs = rand_segments(rnd, n, rnd.randint(1, 3))
             if segs:
